@@ -72,6 +72,7 @@ def plan(tier, seed):
         sh += [{'kind': 'docs', 'count': 700, 'per': 4, 'depth': 4, 'name': 'docs%d' % k} for k in range(3)]
         sh += [{'kind': 'scaling', 'k': k, 'n': 2, 'sizes': [4, 8, 12, 16, 20, 22, 24, 26, 28, 32, 64], 'name': 'scale%d' % k}
                for k in range(2)]
+        sh += [{'kind': 'pairs', 'k': k, 'n': 2, 'per': 2, 'name': 'pairs%d' % k} for k in range(2)]
         return sh
     sh = [{'kind': 'names', 'k': k, 'n': 32, 'per': 40, 'name': 'names%d' % k} for k in range(32)]
     sh += [{'kind': 'enum', 'L': 5, 'k': k, 'n': 8, 'per': 2, 'name': 'enum%d' % k} for k in range(8)]
@@ -79,13 +80,15 @@ def plan(tier, seed):
     sh += [{'kind': 'docs', 'count': 4000, 'per': 8, 'depth': 4 + k % 3, 'name': 'docs%d' % k} for k in range(8)]
     sh += [{'kind': 'scaling', 'k': k, 'n': 4, 'sizes': [4, 8, 12, 16, 20, 22, 24, 26, 28, 32, 48, 64, 128, 256, 512],
             'name': 'scale%d' % k} for k in range(4)]
+    sh += [{'kind': 'pairs', 'k': k, 'n': 4, 'per': 12, 'name': 'pairs%d' % k} for k in range(4)]
     return sh
 
 
 def floors(tier):
     return {'evaluations': 60000, 'distinct_nontrivial': 20000, 'conversions': 60000,
             'histkeys:macro_name': 1000, 'histkeys:env_name': 50, 'histkeys:option_pair': 110,
-            'histkeys:template': 48, 'scaling_conversions_timed': 300, 'histkeys:scaling_family': 30}
+            'histkeys:template': 48, 'scaling_conversions_timed': 300, 'histkeys:scaling_family': 30,
+            'function_rule_macro_pairs': 10000}
 
 
 def setup(rec):
@@ -262,6 +265,25 @@ def run_shard(desc, rec):
                     check_case({'s': s, 'opts': o}, rec)
                 if idx % 97 == 0 and ti == 3:
                     rec.sample({'input': s, 'options': opts_from(o)})
+    elif kind == 'pairs':
+        # macros and environments whose text rule is a function (they may keep or use state on the converter: \title ...
+        # \maketitle) in every ordered pair, with empty and non-empty arguments, in one document
+        from pylatexenc.latex2text import get_default_latex_context_db
+        tdb = get_default_latex_context_db()
+        fn = ['\\' + m.macroname for m in tdb.iter_macro_specs() if callable(m.simplify_repl)]
+        forms = [('%s{}', '%s'), ('%s{a}{b}', '%s{}'), ('%s', '%s{c d}'), ('%s{ }', '{%s}')]
+        idx = 0
+        for a in fn:
+            for b in fn:
+                idx += 1
+                if idx % desc['n'] != desc['k']:
+                    continue
+                for fa, fb in forms:
+                    s = (fa % a) + rng.choice([' ', '\n\n', 'x']) + (fb % b)
+                    rec.monitor('function_rule_macro_pairs')
+                    for o in rot.take(per):
+                        rec.case()
+                        check_case({'s': s, 'opts': o}, rec)
     elif kind == 'enum':
         for s in work.enum_strings(desc['L'], desc['k'], desc['n']):
             for o in rot.take(per):
